@@ -510,6 +510,9 @@ func (e *Engine) registerVstub() {
 		if !ok1 || !ok2 {
 			panic(internalf("Choose: symbolic bounds"))
 		}
+		if hi <= lo {
+			return i64c(int64(lo))
+		}
 		v := e.choose(lo, hi)
 		e.logConcrete("choose", uint64(int64(v)))
 		return i64c(int64(v))
@@ -553,6 +556,21 @@ func (e *Engine) registerVstub() {
 	reg("PermuteRanges", func(e *Engine, fn *ssa.Function, a []Value) Value {
 		e.permute = a[0].(*term.Term).IsTrue()
 		return nil
+	})
+	reg("Panics", func(e *Engine, fn *ssa.Function, a []Value) (res Value) {
+		d, nf, np := e.depth, len(e.curFn), len(e.curPos)
+		defer func() {
+			if r := recover(); r != nil {
+				if pe, ok := r.(pathEnd); ok && pe.kind == endPanic {
+					e.depth, e.curFn, e.curPos = d, e.curFn[:nf], e.curPos[:np]
+					res = term.True
+					return
+				}
+				panic(r)
+			}
+		}()
+		e.invoke(a[0], nil)
+		return term.False
 	})
 	reg("IsSymbolic", func(e *Engine, fn *ssa.Function, a []Value) Value { return term.True })
 }
